@@ -40,11 +40,16 @@ def bootstrap(hashseed=None):
     Hash order is therefore never ambient: it is a recorded constant of the run.
     """
     want = hashseed if hashseed is not None else os.environ.get('HPLSIM_HASHSEED', PINNED_HASHSEED)
-    if os.environ.get('PYTHONHASHSEED') != want:
+    # HPLSIM_PYOPT=1: run the library the way `python -O` / PYTHONOPTIMIZE=1 deployments do (asserts
+    # stripped); a configuration, recorded in replay files like the hash seed
+    want_opt = 1 if os.environ.get('HPLSIM_PYOPT') == '1' else 0
+    if os.environ.get('PYTHONHASHSEED') != want or sys.flags.optimize != want_opt:
         env = dict(os.environ)
         env['PYTHONHASHSEED'] = want
         env['PYTHONDONTWRITEBYTECODE'] = '1'
-        os.execve(sys.executable, [sys.executable] + sys.argv, env)
+        env.pop('PYTHONOPTIMIZE', None)
+        argv = [sys.executable] + (['-O'] if want_opt else []) + sys.argv
+        os.execve(sys.executable, argv, env)
     sys.dont_write_bytecode = True
     if SRC in sys.path:
         sys.path.remove(SRC)
